@@ -333,6 +333,7 @@ impl<K: CacheKey + 'static> DiskCache<K> {
         }
 
         {
+            vp_sched!("disk.write.open");
             let mut file = OpenOptions::new()
                 .write(true)
                 .create(true)
@@ -340,6 +341,7 @@ impl<K: CacheKey + 'static> DiskCache<K> {
                 .open(&temp_path)
                 .map_err(CacheError::Io)?;
 
+            vp_sched!("disk.write.data");
             file.write_all(data).map_err(CacheError::Io)?;
             file.flush().map_err(CacheError::Io)?;
 
@@ -357,6 +359,7 @@ impl<K: CacheKey + 'static> DiskCache<K> {
         }
 
         // Atomic rename
+        vp_sched!("disk.write.rename");
         fs::rename(&temp_path, path).map_err(CacheError::Io)?;
 
         Ok(())
@@ -482,6 +485,7 @@ impl<K: CacheKey + 'static> AsyncCache<K> for DiskCache<K> {
         let start_time = Instant::now();
 
         // Check index first
+        vp_sched!("disk.get.index");
         let entry_info = {
             let index = self
                 .index
@@ -493,6 +497,7 @@ impl<K: CacheKey + 'static> AsyncCache<K> for DiskCache<K> {
         if let Some(entry) = entry_info {
             if entry.is_expired() {
                 // Remove expired entry
+                vp_sched!("disk.get.expired");
                 if let Ok(mut index) = self.index.write() {
                     index.remove(key);
                     self.entry_count.fetch_sub(1, Ordering::Relaxed);
@@ -508,9 +513,11 @@ impl<K: CacheKey + 'static> AsyncCache<K> for DiskCache<K> {
             }
 
             // Read file content
+            vp_sched!("disk.get.read");
             match self.read_file(&entry.file_path).await {
                 Ok(data) => {
                     // Update access time
+                    vp_sched!("disk.get.touch");
                     if let Ok(mut index) = self.index.write()
                         && let Some(entry) = index.get_mut(key)
                     {
@@ -522,6 +529,7 @@ impl<K: CacheKey + 'static> AsyncCache<K> for DiskCache<K> {
                 }
                 Err(e) => {
                     // File read failed - remove from index
+                    vp_sched!("disk.get.readfail");
                     if let Ok(mut index) = self.index.write() {
                         index.remove(key);
                         self.entry_count.fetch_sub(1, Ordering::Relaxed);
@@ -536,8 +544,10 @@ impl<K: CacheKey + 'static> AsyncCache<K> for DiskCache<K> {
         } else {
             // Not in index - try to find file on disk as fallback
             let file_path = self.get_file_path(key);
+            vp_sched!("disk.get.fallback.exists");
             if file_path.exists() {
                 // Found file on disk - try to read it and add to index
+                vp_sched!("disk.get.fallback.read");
                 match self.read_file(&file_path).await {
                     Ok(data) => {
                         let size_bytes = data.len();
@@ -554,6 +564,7 @@ impl<K: CacheKey + 'static> AsyncCache<K> for DiskCache<K> {
                             access_count: 1,
                         };
 
+                        vp_sched!("disk.get.fallback.index");
                         if let Ok(mut index) = self.index.write() {
                             index.insert(key.clone(), entry);
                             self.entry_count.fetch_add(1, Ordering::Relaxed);
@@ -591,6 +602,7 @@ impl<K: CacheKey + 'static> AsyncCache<K> for DiskCache<K> {
         self.write_file(&file_path, &value).await?;
 
         // Update index
+        vp_sched!("disk.put.index");
         {
             let mut index = self
                 .index
@@ -629,6 +641,7 @@ impl<K: CacheKey + 'static> AsyncCache<K> for DiskCache<K> {
     }
 
     async fn contains(&self, key: &K) -> CacheResult<bool> {
+        vp_sched!("disk.contains");
         let index = self
             .index
             .read()
@@ -647,6 +660,7 @@ impl<K: CacheKey + 'static> AsyncCache<K> for DiskCache<K> {
     }
 
     async fn remove(&self, key: &K) -> CacheResult<bool> {
+        vp_sched!("disk.remove");
         let mut index = self
             .index
             .write()
@@ -666,6 +680,7 @@ impl<K: CacheKey + 'static> AsyncCache<K> for DiskCache<K> {
     }
 
     async fn clear(&self) -> CacheResult<()> {
+        vp_sched!("disk.clear.index");
         let mut index = self
             .index
             .write()
@@ -679,11 +694,13 @@ impl<K: CacheKey + 'static> AsyncCache<K> for DiskCache<K> {
         index.clear();
         drop(index); // Release lock early to reduce contention
 
+        vp_sched!("disk.clear.counters");
         self.entry_count.store(0, Ordering::Relaxed);
         self.disk_usage.store(0, Ordering::Relaxed);
         self.metrics.reset();
 
         // Also clean up any remaining files and subdirectories
+        vp_sched!("disk.clear.dir");
         self.clear_directory_recursive(&self.config.cache_dir)?;
 
         Ok(())
@@ -694,6 +711,7 @@ impl<K: CacheKey + 'static> AsyncCache<K> for DiskCache<K> {
     }
 
     async fn size(&self) -> CacheResult<usize> {
+        vp_sched!("disk.size");
         let index_size = self.entry_count.load(Ordering::Relaxed);
 
         // If index is empty but cache directory exists, do a quick scan
